@@ -314,7 +314,10 @@ def _variants(s):
     out = {}
     if not _hidden_caps(s):
         try:
-            if lib.view_abs(s)[:2] == lib.view_rel(s)[:2]:
+            va = lib.view_abs(s)
+            # with re-triggered (nested) notes the velocity a fused note keeps depends on the stored order of equal
+            # events, which a rebuild cannot and need not reproduce (the statements do not demand it)
+            if va[:2] == lib.view_rel(s)[:2] and not lib.pair_notes(va[0])[2]:
                 out["rebuilt"] = _rebuilt(s)
         except Exception:  # noqa: BLE001
             pass
